@@ -9,6 +9,7 @@ import EaselModel.Pipeline.WakeSteps
 import EaselModel.Pipeline.ConstT
 import EaselModel.Dsqdata.FormatLemmas
 import EaselModel.Dsqdata.OpenRejects
+import EaselModel.Dsqdata.SmemLemmas
 import EaselModel.Pipeline.Locks
 /-! # C12 — property theorems (statements + glue only; lemmas live in WorkQueue/*.lean, Dsqdata/*.lean)
 
@@ -191,6 +192,45 @@ theorem codec_unpack_in_place (mode5 : Bool) (ps : List UInt32) (maxpacket maxse
     (∀ p, p < ps.length → writeFront mode5 (ps.take p) 1 ≤ (U - 4 * maxpacket) + 4 * p) ∧
     writeFront mode5 ps 1 ≤ U :=
   unpack_in_place_safe mode5 ps maxpacket maxseq U hpn hN hU
+
+/-- **`dsqdata_chunk_Create`'s buffer layout**: `U = {6|15}·maxpacket + maxseq + 1` rounded up to a multiple of 4 satisfies the
+    hypothesis of `codec_unpack_in_place`; `psq = smem + U - 4·maxpacket` is 4-byte aligned (given `malloc`'s alignment of
+    `smem`), lies at least one byte above `smem[0]`, and exactly `maxpacket` packets fit between it and the end of the buffer. -/
+theorem codec_chunk_layout (mode5 : Bool) (maxpacket maxseq : Nat) :
+    per mode5 * maxpacket + maxseq + 1 ≤ chunkU mode5 maxpacket maxseq ∧
+    chunkPsqOff mode5 maxpacket maxseq + 4 * maxpacket = chunkU mode5 maxpacket maxseq ∧
+    chunkPsqOff mode5 maxpacket maxseq % 4 = 0 ∧ 1 ≤ chunkPsqOff mode5 maxpacket maxseq :=
+  ⟨(chunkU_ge mode5 maxpacket maxseq).1, chunk_layout mode5 maxpacket maxseq⟩
+
+/-- **`codec_unpack_smem`: unpacking in place at BYTE level is the functional unpacker.** `unpackChunkMem` runs
+    `dsqdata_unpack_chunk`'s sequence loop (with `dsqdata_unpack5` / `_unpack2` inside) on the byte buffer itself: packets are
+    read from `smem + psqOff + 4·pos`, residues and sentinels are stored into the same buffer from byte 1 upwards, every access
+    bounds-checked. In the buffer `dsqdata_chunk_Create` makes for `(maxpacket, maxseq)`, whatever it held before (`fill`), with
+    the `pn ≤ maxpacket` packets of ANY chunk of `N ≤ maxseq` sequences that the functional `unpackChunk` accepts placed where the
+    loader `fread`s them: no access leaves the buffer, no unread packet is overwritten, and afterwards `smem[0 …]` is the leading
+    sentinel followed by every sequence and its sentinel, `(dsq[i] - smem, L[i])` = `segsOf 0 ds`. -/
+theorem codec_unpack_smem (mode5 : Bool) (ps : List UInt32) (maxpacket maxseq : Nat) (fill : UInt8) (ds : List (List UInt8))
+    (hpn : ps.length ≤ maxpacket) (hN : eodCount ps ≤ maxseq) (hds : unpackChunk mode5 ps = some ds) :
+    ∃ mem', unpackChunkMem mode5 (loadedSmem mode5 maxpacket maxseq ps fill) (chunkPsqOff mode5 maxpacket maxseq) ps.length
+        = some (mem', segsOf 0 ds) ∧
+      mem'.length = chunkU mode5 maxpacket maxseq ∧ mem'.take (smemLayout ds).length = smemLayout ds :=
+  unpackChunkMem_correct mode5 ps maxpacket maxseq fill ds hpn hN hds
+
+/-- … in particular for the packets of any sequences that were packed (`pack5` for protein, `pack2` otherwise; codes ≤ 30,
+    empty sequences included) and fit the limits: pack → loader's buffer → unpack in place returns the sequences, byte for byte. -/
+theorem codec_pack_unpack_smem (amino : Bool) (ds : List (List UInt8)) (maxpacket maxseq : Nat) (fill : UInt8)
+    (hd : ∀ d ∈ ds, ∀ x ∈ d, x ≤ 30) (hpn : (ds.flatMap (pk amino)).length ≤ maxpacket) (hN : ds.length ≤ maxseq) :
+    ∃ mem', unpackChunkMem amino (loadedSmem amino maxpacket maxseq (ds.flatMap (pk amino)) fill)
+        (chunkPsqOff amino maxpacket maxseq) (ds.flatMap (pk amino)).length = some (mem', segsOf 0 ds) ∧
+      mem'.length = chunkU amino maxpacket maxseq ∧ mem'.take (smemLayout ds).length = smemLayout ds :=
+  unpackChunkMem_packed amino ds maxpacket maxseq fill hd hpn hN
+
+/-- non-vacuity: two DNA sequences (15 canonical residues = one full 2-bit packet; one degenerate residue), limits exactly met -/
+example : (unpackChunkMem false (loadedSmem false 2 2 ([[0, 1, 2, 3, 0, 1, 2, 3, 0, 1, 2, 3, 0, 1, 2], [15]].flatMap (pk false)) 7)
+      (chunkPsqOff false 2 2) 2).map (fun r => (r.1.take 19, r.2))
+    = some (smemLayout [[0, 1, 2, 3, 0, 1, 2, 3, 0, 1, 2, 3, 0, 1, 2], [15]], [(0, 15), (16, 1)]) := by decide +kernel
+/-- the limits are needed: one packet more than the buffer was made for, and the loader's `fread` lands outside / the unpacker faults -/
+example : chunkPsqOff false 1 1 + 4 * 2 > chunkU false 1 1 := by decide
 
 example : (∀ x ∈ [0, 1, 2, 3, 15, 30, 0, (7 : UInt8)], x ≤ 30) := by decide
 example : unpack2 (pack2 [0, 1, 2, 3, 15, 30, 0, 7]) = some ([0, 1, 2, 3, 15, 30, 0, 7], 2) := by decide +kernel
